@@ -1,1 +1,2 @@
 import Props.C17
+import Props.C18
